@@ -27,6 +27,7 @@
 //	C07/open-failed-with-common-protocol, C07/first-use-failed-although-supported/{eager,lazy}  (liveness:
 //	                                      no mutation overlapping the open, fault-free stratum only)
 //	C07/scope-while-open/{dialer,listener}, C07/scope-after-close/{dialer,listener}
+//	C07/stream-broke-after-negotiation/{dialer,listener}   second round trip after a long idle failed (all strata)
 //	C07/panic
 //
 // Strata (drawn first): fault-free with real resource managers (3/5); one injected resource-manager refusal
@@ -36,6 +37,9 @@
 // handler wrapper takes effect instead of being refused with "already attached"; scope oracles off).
 // Stream usages: Write+Read | Write, CloseWrite, Read | no I/O | first Read racing the first Write |
 // read-only client (CloseWrite is the very FIRST operation, then Read: the handler answers on a clean EOF).
+// round trip, idle for twice the listener's HostOpts.NegotiationTimeout (drawn 10|1|2|3 s) in virtual time,
+// second round trip on the same stream (the handler sets no deadline of its own and answers every nonce:
+// C07/stream-broke-after-negotiation/{dialer,listener} if the bytes stop flowing on a healthy connection).
 // Whatever the first operation is, a stream bound to an ID that every possible handler table matches must
 // not fail at first use (C07/first-use-failed-although-supported).
 //
@@ -88,6 +92,9 @@
 //
 //	s1  streamWrapper.CloseWrite half-closes before flushing the lazy handshake -> C07/first-use-failed-although-supported/lazy (run 0)
 //	s2  blank SetStreamHandler(/Match) wrappers call SetProtocol(registration id) -> C07/ends-disagree/{eager,lazy,unused} (~3 400 runs, 18 s)
+//
+//	s3  basic newStreamHandler clears only the READ deadline after Negotiate (write deadline of the negotiation survives)
+//	      -> C07/stream-broke-after-negotiation/listener (handler's later Write: "i/o deadline reached"); run 8, missed before the idle usage existed
 //
 // Not caught by design: identify never pushing protocol changes (the statement allows stale knowledge to fail at first use).
 //
